@@ -329,6 +329,29 @@ pub fn stun_attr_shapes() -> Vec<Vec<u8>> {
         v.push([stun_magic(&[], &ID12), tail.clone()].concat());
         v.push([stun_classic(&[], &ID16), tail].concat());
     }
+    // dissected attributes whose DECLARED length exceeds their fixed layout: the surplus bytes belong
+    // to the attribute (the walker steps over the declared length), whatever they read as
+    {
+        let fixed: Vec<(u16, Vec<u8>)> = vec![
+            (1, vec![0, 1, 0x1f, 0x90, 9, 9, 9, 9]),
+            (1, [&[0u8, 2, 0x1f, 0x90][..], &[0x20, 1, 0xd, 0xb8, 0, 0, 0, 0, 0, 0, 0, 0, 0, 0, 0, 9][..]].concat()),
+            (3, vec![0, 0, 0, 0]),
+            (3, vec![0, 0, 0, 2]),
+        ];
+        let surplus: Vec<Vec<u8>> = vec![vec![0x80, 0x22, 0, 8], vec![0xff; 4], vec![0, 3, 0, 4, 0, 0, 0, 2], vec![0, 3, 0, 4, 0, 0, 0, 6, 0x80, 0x22, 0, 0], vec![0, 1, 0, 8, 0, 9, 0, 0], vec![0; 4]];
+        let follow: Vec<Vec<u8>> = vec![vec![], stun_attr(3, &[0, 0, 0, 2]), stun_attr(3, &[0, 0, 0, 0]), stun_attr(0x8022, b"abcd")];
+        let filler = stun_attr(0x8022, &[b'p'; 228]);
+        for (t, val) in &fixed {
+            for sp in &surplus {
+                for fo in &follow {
+                    let a = stun_attr(*t, &[val.clone(), sp.clone()].concat());
+                    v.push(stun_magic(&[a.clone(), fo.clone(), filler.clone()].concat(), &ID12));
+                    v.push(stun_magic(&[filler.clone(), a.clone(), fo.clone()].concat(), &ID12));
+                    v.push(stun_classic(&[a, fo.clone(), filler.clone()].concat(), &ID16));
+                }
+            }
+        }
+    }
     for t in &types {
         for val in &vals {
             let a = stun_attr(*t, val);
